@@ -6,34 +6,30 @@ import XzVerif.Lemmas.MtEncC
 
 namespace XzVerif.MtEnc
 
-/-- Per-entry facts, relative to `en` = main is in threads_end, `fl` = lzma_code has returned an error, `er` = thread_error set. -/
-structure EW (en fl er : Prop) (e : Entry) : Prop where
-  exitIff : ∀ w, e.wk = some w → (w.state = .exit ↔ en)
-  stopF : ∀ w, e.wk = some w → w.state = .stop → fl
-  idleT : ∀ w, e.wk = some w → w.state = .idle → w.pc = .tail ∨ fl
-  resF : ∀ w, e.wk = some w → (w.pc = .markIdle ∨ w.pc = .tail) → w.resFinish = false → er ∨ fl ∨ en
-  noWk : e.wk = none → e.finished = true ∨ er ∨ fl ∨ en
+/-- Per-entry facts, relative to `en` = main is in threads_end, `dn` = the stream is down (lzma_code returned an error, or
+    threads_end has begun), `er` = thread_error is set. -/
+structure EW (en dn er : Prop) (e : Entry) : Prop where
+  exitEn : ∀ w, e.wk = some w → w.state = .exit → en
+  stopF : ∀ w, e.wk = some w → w.state = .stop → dn
+  idleT : ∀ w, e.wk = some w → w.state = .idle → w.pc = .tail ∨ dn
+  resF : ∀ w, e.wk = some w → (w.pc = .markIdle ∨ w.pc = .tail) → w.resFinish = false → er ∨ dn
+  noWk : e.wk = none → e.finished = true ∨ er ∨ dn
 
 def En (s : St) : Prop := s.mpc = .ending
-def Fl (s : St) : Prop := s.mpc = .failed
+def Dn (s : St) : Prop := s.mpc = .failed ∨ s.mpc = .ending
 def Er (s : St) : Prop := s.err ≠ none
 
 structure InvW (s : St) : Prop where
-  ew : ∀ e ∈ s.outq, EW (En s) (Fl s) (Er s) e
+  ew : ∀ e ∈ s.outq, EW (En s) (Dn s) (Er s) e
   cnt : s.ninit = s.idle + busy s.outq + s.exiting
   exZero : s.mpc ≠ .ending → s.exiting = 0
 
-theorem EW_mono {en fl er er' : Prop} {e : Entry} (h : EW en fl er e) (hm : er → er') : EW en fl er' e :=
-  ⟨h.exitIff, h.stopF, h.idleT,
-   fun w hw hp hr => (h.resF w hw hp hr).elim (fun a => Or.inl (hm a)) Or.inr,
-   fun hn => (h.noWk hn).elim Or.inl (fun a => a.elim (fun b => Or.inr (Or.inl (hm b))) (fun b => Or.inr (Or.inr b)))⟩
-
-theorem EW_congr {en fl er en' fl' er' : Prop} {e : Entry} (h : EW en fl er e) (h1 : en ↔ en') (h2 : fl ↔ fl') (h3 : er ↔ er') :
-    EW en' fl' er' e := by
-  have a : en = en' := propext h1
-  have b : fl = fl' := propext h2
-  have c : er = er' := propext h3
-  subst a; subst b; subst c; exact h
+theorem EW_mono {en dn er en' dn' er' : Prop} {e : Entry} (h : EW en dn er e) (h1 : en → en') (h2 : dn → dn') (h3 : er → er') :
+    EW en' dn' er' e :=
+  ⟨fun w hw a => h1 (h.exitEn w hw a), fun w hw a => h2 (h.stopF w hw a),
+   fun w hw a => (h.idleT w hw a).elim Or.inl (fun b => Or.inr (h2 b)),
+   fun w hw hp hr => (h.resF w hw hp hr).elim (fun a => Or.inl (h3 a)) (fun a => Or.inr (h2 a)),
+   fun hn => (h.noWk hn).elim Or.inl (fun a => a.elim (fun b => Or.inr (Or.inl (h3 b))) (fun b => Or.inr (Or.inr (h2 b))))⟩
 
 /-- busy after replacing entry `i`. -/
 theorem busy_set {q : List Entry} {i : Nat} {e e' : Entry} (hi : q[i]? = some e) :
@@ -65,35 +61,35 @@ theorem busy_cons (e : Entry) (q : List Entry) : busy (e :: q) = busy q + (if e.
 
 
 theorem InvW_set {s t : St} {i : Nat} {e e' : Entry} (h : InvW s) (hi : s.outq[i]? = some e) (hq : t.outq = s.outq.set i e')
-    (hmpc : t.mpc = s.mpc) (herr : Er s → Er t) (hew : EW (En s) (Fl s) (Er t) e')
+    (hmpc : t.mpc = s.mpc) (herr : Er s → Er t) (hew : EW (En s) (Dn s) (Er t) e')
     (hcnt : t.ninit = t.idle + busy t.outq + t.exiting) (hex : t.mpc ≠ .ending → t.exiting = 0) : InvW t := by
   refine ⟨?_, hcnt, hex⟩
   intro x hx
   rw [hq] at hx
-  have hen : En t ↔ En s := by unfold En; rw [hmpc]
-  have hfl : Fl t ↔ Fl s := by unfold Fl; rw [hmpc]
-  refine EW_congr ?_ hen.symm hfl.symm Iff.rfl
-  exact forall_mem_set (Q := EW (En s) (Fl s) (Er t)) (fun y hy => EW_mono (h.ew y hy) herr) hew x hx
+  have hen : En s → En t := by unfold En; rw [hmpc]; exact id
+  have hdn : Dn s → Dn t := by unfold Dn; rw [hmpc]; exact id
+  refine EW_mono ?_ hen hdn id
+  exact forall_mem_set (Q := EW (En s) (Dn s) (Er t)) (fun y hy => EW_mono (h.ew y hy) id id herr) hew x hx
 
 /-- Replacing the worker context by another one (the worker stays attached): counts are unchanged. -/
 theorem InvW_setW {s : St} {i : Nat} {e : Entry} {w w' : WCtx} (h : InvW s) (hi : s.outq[i]? = some e) (hw : e.wk = some w)
-    (hew : EW (En s) (Fl s) (Er s) { e with wk := some w' }) : InvW (setW s i e (some w')) := by
+    (hew : EW (En s) (Dn s) (Er s) { e with wk := some w' }) : InvW (setW s i e (some w')) := by
   refine InvW_set h hi rfl rfl id hew ?_ h.exZero
   have := busy_set (e' := { e with wk := some w' }) hi
   simp [hw] at this
   simp only [setW]
   rw [this]; exact h.cnt
 
-theorem EW_of_w {en fl er : Prop} {e : Entry} {w' : WCtx}
-    (h1 : w'.state = .exit ↔ en) (h2 : w'.state = .stop → fl) (h3 : w'.state = .idle → w'.pc = .tail ∨ fl)
-    (h4 : (w'.pc = .markIdle ∨ w'.pc = .tail) → w'.resFinish = false → er ∨ fl ∨ en) : EW en fl er { e with wk := some w' } :=
+theorem EW_of_w {en dn er : Prop} {e : Entry} {w' : WCtx}
+    (h1 : w'.state = .exit → en) (h2 : w'.state = .stop → dn) (h3 : w'.state = .idle → w'.pc = .tail ∨ dn)
+    (h4 : (w'.pc = .markIdle ∨ w'.pc = .tail) → w'.resFinish = false → er ∨ dn) : EW en dn er { e with wk := some w' } :=
   ⟨by intro w hw; cases hw; exact h1, by intro w hw; cases hw; exact h2, by intro w hw; cases hw; exact h3,
    by intro w hw; cases hw; exact h4, by intro hn; cases hn⟩
 
 theorem InvW_leave {s : St} {i : Nat} {e : Entry} {w : WCtx} (h : InvW s) (hi : s.outq[i]? = some e) (hw : e.wk = some w)
     (hst : w.state = .exit) : InvW (leave s i e) := by
   have hE := h.ew e (mem_of_getElem? hi)
-  have hen : En s := (hE.exitIff w hw).mp hst
+  have hen : En s := hE.exitEn w hw hst
   refine InvW_set h hi rfl rfl id ⟨(by intro w hw; cases hw), (by intro w hw; cases hw), (by intro w hw; cases hw), (by intro w hw; cases hw),
     fun _ => Or.inr (Or.inr (Or.inr hen))⟩ ?_ h.exZero
   have := busy_set (e' := { e with wk := none }) hi
@@ -114,22 +110,20 @@ theorem InvW_wTop {s s' : St} {i : Nat} (h : InvW s) (hs : wTop s i = some s') :
     split at hs <;> cases hs
     · rename_i hst
       refine InvW_setW h hi hw (EW_of_w ?_ ?_ ?_ ?_)
-      · simp only [sleep]; constructor
-        · intro a; cases a
-        · intro a; have := (hE.exitIff w hw).mpr a; rw [hst] at this; cases this
+      · simp [sleep]
       · simp [sleep]
       · intro _; exact Or.inr (hE.stopF w hw hst)
       · simp [sleep, hg.1]
     · rename_i hst
       refine InvW_setW h hi hw (EW_of_w ?_ ?_ ?_ ?_)
-      · simpa [sleep] using hE.exitIff w hw
+      · simpa [sleep] using hE.exitEn w hw
       · simpa [sleep] using hE.stopF w hw
       · simpa [sleep] using hE.idleT w hw
       · simp [sleep, hg.1]
     · rename_i hst; exact InvW_leave h hi hw hst
     · rename_i h1 h2 h3
       refine InvW_setW h hi hw (EW_of_w ?_ ?_ ?_ ?_)
-      · simpa [awake] using hE.exitIff w hw
+      · simpa [awake] using hE.exitEn w hw
       · simpa [awake] using hE.stopF w hw
       · intro a; simp [awake] at a; exact absurd a h2
       · simp [awake]
@@ -145,30 +139,30 @@ theorem InvW_wEnc {P : Params} {s s' : St} {i : Nat} {full : Bool} {newOut : Nat
   have hE := h.ew e (mem_of_getElem? hi)
   split at hs
   · rename_i hg
-    have hidle : w.state = .idle → Fl s := by
+    have hidle : w.state = .idle → Dn s := by
       intro a; rcases hE.idleT w hw a with b | b
       · rw [hg.1] at b; cases b
       · exact b
     split at hs
     · cases hs
       refine InvW_setW h hi hw (EW_of_w ?_ ?_ ?_ ?_)
-      · simpa [sleep] using hE.exitIff w hw
+      · simpa [sleep] using hE.exitEn w hw
       · simpa [sleep] using hE.stopF w hw
       · intro a; simp [sleep] at a; exact Or.inr (hidle a)
       · simp [sleep, hg.1]
     · split at hs
       · rename_i hst; cases hs
         refine InvW_setW h hi hw (EW_of_w ?_ ?_ ?_ ?_)
-        · simpa [awake, hst] using (hE.exitIff w hw)
+        · simp [awake, hst]
         · intro _; exact hE.stopF w hw hst
         · simp [awake, hst]
-        · intro _ _; exact Or.inr (Or.inl (hE.stopF w hw hst))
+        · intro _ _; exact Or.inr (hE.stopF w hw hst)
       · rename_i hst; cases hs
         refine InvW_setW h hi hw (EW_of_w ?_ ?_ ?_ ?_)
-        · simpa [awake, hst] using (hE.exitIff w hw)
+        · simp [awake, hst]
         · simp [awake, hst]
         · intro _; exact Or.inr (hidle hst)
-        · intro _ _; exact Or.inr (Or.inl (hidle hst))
+        · intro _ _; exact Or.inr (hidle hst)
       · rename_i hst; cases hs; exact InvW_leave h hi hw hst
       · rename_i st h1 h2 h3
         dsimp only at hs
@@ -176,7 +170,7 @@ theorem InvW_wEnc {P : Params} {s s' : St} {i : Nat} {full : Bool} {newOut : Nat
         · split at hs
           · cases hs
             refine InvW_setW h hi hw (EW_of_w ?_ ?_ ?_ ?_)
-            · simpa [awake] using hE.exitIff w hw
+            · simpa [awake] using hE.exitEn w hw
             · simpa [awake] using hE.stopF w hw
             · intro a; simp [awake] at a; exact absurd a h2
             · simp [awake]
@@ -184,20 +178,19 @@ theorem InvW_wEnc {P : Params} {s s' : St} {i : Nat} {full : Bool} {newOut : Nat
         · split at hs
           · cases hs
             refine InvW_setW h hi hw (EW_of_w ?_ ?_ ?_ ?_)
-            · simpa [awake] using hE.exitIff w hw
+            · simpa [awake] using hE.exitEn w hw
             · simpa [awake] using hE.stopF w hw
             · intro a; simp [awake] at a; exact absurd a h2
             · simp [awake]
           · split at hs
             · cases hs
               refine InvW_setW h hi hw (EW_of_w ?_ ?_ ?_ ?_)
-              · simpa [awake] using hE.exitIff w hw
+              · simpa [awake] using hE.exitEn w hw
               · simpa [awake] using hE.stopF w hw
               · intro a; simp [awake] at a; exact absurd a h2
               · simp [awake, hg.1]
             · cases hs
   · cases hs
-
 
 theorem InvW_wEncErr {s s' : St} {i : Nat} {r : Ret} (h : InvW s) (hs : wEncErr s i r = some s') : InvW s' := by
   unfold wEncErr at hs
@@ -212,7 +205,7 @@ theorem InvW_wEncErr {s s' : St} {i : Nat} {r : Ret} (h : InvW s) (hs : wEncErr 
     have her : Er { setW s i e (some { awake w with pc := .markIdle, resFinish := false }) with err := some (s.err.getD r), mWoken := true } := by
       simp [Er]
     refine InvW_set h hi rfl rfl (fun _ => her) (EW_of_w ?_ ?_ ?_ ?_) ?_ h.exZero
-    · simpa [awake] using hE.exitIff w hw
+    · simpa [awake] using hE.exitEn w hw
     · simpa [awake] using hE.stopF w hw
     · intro a; simp [awake] at a
       rcases hE.idleT w hw a with b | b
@@ -234,33 +227,33 @@ theorem InvW_wFb {P : Params} {s s' : St} {i : Nat} (h : InvW s) (hs : wFb P s i
   have hE := h.ew e (mem_of_getElem? hi)
   split at hs
   · rename_i hg
-    have hidle : w.state = .idle → Fl s := by
+    have hidle : w.state = .idle → Dn s := by
       intro a; rcases hE.idleT w hw a with b | b
       · rw [hg.1] at b; cases b
       · exact b
     split at hs <;> cases hs
     · rename_i hst
       refine InvW_setW h hi hw (EW_of_w ?_ ?_ ?_ ?_)
-      · simpa [sleep] using hE.exitIff w hw
+      · simpa [sleep] using hE.exitEn w hw
       · simpa [sleep] using hE.stopF w hw
       · intro a; simp [sleep] at a; exact Or.inr (hidle a)
       · simp [sleep, hg.1]
     · rename_i hst
       refine InvW_setW h hi hw (EW_of_w ?_ ?_ ?_ ?_)
-      · simpa [awake, hst] using (hE.exitIff w hw)
+      · simp [awake, hst]
       · intro _; exact hE.stopF w hw hst
       · simp [awake, hst]
-      · intro _ _; exact Or.inr (Or.inl (hE.stopF w hw hst))
+      · intro _ _; exact Or.inr (hE.stopF w hw hst)
     · rename_i hst
       refine InvW_setW h hi hw (EW_of_w ?_ ?_ ?_ ?_)
-      · simpa [awake, hst] using (hE.exitIff w hw)
+      · simp [awake, hst]
       · simp [awake, hst]
       · intro _; exact Or.inr (hidle hst)
-      · intro _ _; exact Or.inr (Or.inl (hidle hst))
+      · intro _ _; exact Or.inr (hidle hst)
     · rename_i hst; exact InvW_leave h hi hw hst
     · rename_i hst
       refine InvW_setW h hi hw (EW_of_w ?_ ?_ ?_ ?_)
-      · simpa [awake] using hE.exitIff w hw
+      · simp [awake, hst]
       · simp [awake, hst]
       · simp [awake, hst]
       · simp [awake]
@@ -277,11 +270,10 @@ theorem InvW_wMarkIdle {s s' : St} {i : Nat} (h : InvW s) (hs : wMarkIdle s i = 
   · rename_i hg
     cases hs
     refine InvW_setW h hi hw (EW_of_w ?_ ?_ ?_ ?_)
-    · dsimp only
+    · dsimp only; intro a
       by_cases hx : w.state = .exit
-      · simp only [hx, if_true]; exact ⟨fun _ => (hE.exitIff w hw).mp hx, fun _ => trivial⟩
-      · simp only [hx, if_false]
-        exact ⟨(fun a => by cases a), fun a => absurd ((hE.exitIff w hw).mpr a) hx⟩
+      · exact hE.exitEn w hw hx
+      · simp [hx] at a
     · dsimp only; intro a; split at a <;> cases a
     · intro _; exact Or.inl rfl
     · intro _ hr; exact hE.resF w hw (Or.inl hg) hr
@@ -296,7 +288,7 @@ theorem InvW_wTail {s s' : St} {i : Nat} (h : InvW s) (hs : wTail s i = some s')
   have hE := h.ew e (mem_of_getElem? hi)
   split at hs
   · rename_i hg
-    have hnew : EW (En s) (Fl s) (Er s) { e with finished := e.finished || w.resFinish, wk := none } := by
+    have hnew : EW (En s) (Dn s) (Er s) { e with finished := e.finished || w.resFinish, wk := none } := by
       refine ⟨(by intro w hw; cases hw), (by intro w hw; cases hw), (by intro w hw; cases hw), (by intro w hw; cases hw), ?_⟩
       intro _
       cases hr : w.resFinish with
@@ -308,7 +300,7 @@ theorem InvW_wTail {s s' : St} {i : Nat} (h : InvW s) (hs : wTail s i = some s')
     dsimp only at hs
     split at hs <;> cases hs
     · rename_i hst
-      have hen : En s := (hE.exitIff w hw).mp hst
+      have hen : En s := hE.exitEn w hw hst
       refine InvW_set h hi rfl rfl id hnew ?_ ?_
       · dsimp only; omega
       · intro a; exact absurd hen a
@@ -325,7 +317,7 @@ theorem InvW_wSpurious {s s' : St} {i : Nat} (h : InvW s) (hs : wSpurious s i = 
   have hE := h.ew e (mem_of_getElem? hi)
   split at hs
   · cases hs
-    exact InvW_setW h hi hw (EW_of_w (hE.exitIff w hw) (hE.stopF w hw) (hE.idleT w hw) (hE.resF w hw))
+    exact InvW_setW h hi hw (EW_of_w (hE.exitEn w hw) (hE.stopF w hw) (hE.idleT w hw) (hE.resF w hw))
   · cases hs
 
 theorem InvW_wExitIdle {s s' : St} (h : InvW s) (hs : wExitIdle s = some s') : InvW s' := by
@@ -339,27 +331,26 @@ theorem InvW_wExitIdle {s s' : St} (h : InvW s) (hs : wExitIdle s = some s') : I
     · intro a; have := h.exZero a; omega
   · cases hs
 
-
 -- ---------------------------------------------------------------------------------------------------------------------
 -- main-thread steps
 -- ---------------------------------------------------------------------------------------------------------------------
 
 /-- A main-thread step that leaves the queue, the error flag and the counters alone and stays clear of `failed`/`ending`. -/
 theorem InvW_main {s t : St} (h : InvW s) (hq : t.outq = s.outq) (hs : s.mpc ≠ .ending ∧ s.mpc ≠ .failed)
-    (ht : t.mpc ≠ .ending ∧ t.mpc ≠ .failed) (herr : t.err = s.err) (h1 : t.idle = s.idle) (h2 : t.ninit = s.ninit)
+    (herr : t.err = s.err) (h1 : t.idle = s.idle) (h2 : t.ninit = s.ninit)
     (h3 : t.exiting = s.exiting) : InvW t := by
   refine ⟨?_, by rw [h1, h2, h3, hq]; exact h.cnt, fun _ => by rw [h3]; exact h.exZero hs.1⟩
   intro x hx
   rw [hq] at hx
-  refine EW_congr (h.ew x hx) ?_ ?_ ?_
-  · unfold En; exact ⟨fun a => absurd a hs.1, fun a => absurd a ht.1⟩
-  · unfold Fl; exact ⟨fun a => absurd a hs.2, fun a => absurd a ht.2⟩
-  · unfold Er; rw [herr]
+  refine EW_mono (h.ew x hx) ?_ ?_ ?_
+  · unfold En; exact fun a => absurd a hs.1
+  · unfold Dn; exact fun a => a.elim (fun b => absurd b hs.2) (fun b => absurd b hs.1)
+  · unfold Er; rw [herr]; exact id
 
 theorem InvW_ret {s : St} (r : Ret) (h : InvW s) (hs : s.mpc ≠ .ending ∧ s.mpc ≠ .failed) : InvW (ret s r) := by
   unfold ret
   split
-  · exact InvW_main h rfl hs (by simp) rfl rfl rfl rfl
+  · exact InvW_main h rfl hs rfl rfl rfl rfl
   · refine ⟨?_, ?_, fun _ => h.exZero hs.1⟩
     · intro x hx
       rcases mem_mapWorkers hx with ⟨e0, h0, rfl⟩
@@ -368,8 +359,8 @@ theorem InvW_ret {s : St} (r : Ret) (h : InvW s) (hs : s.mpc ≠ .ending ∧ s.m
       · intro w hw
         cases hk : e0.wk with
         | none => simp [hk] at hw
-        | some w0 => simp [hk] at hw; subst hw; simp [En]
-      · intro _ _ _; rfl
+        | some w0 => simp [hk] at hw; subst hw; simp
+      · intro _ _ _; exact Or.inl rfl
       · intro w hw
         cases hk : e0.wk with
         | none => simp [hk] at hw
@@ -383,8 +374,7 @@ theorem InvW_mCall {s s' : St} {inp : Bytes} {cap : Nat} {act : Action} (h : Inv
   split at hs
   · rename_i hg
     cases hs
-    refine InvW_main h rfl (by simp [hg.1]) ?_ rfl rfl rfl rfl
-    dsimp only; cases s.seq <;> simp
+    exact InvW_main h rfl (by simp [hg.1]) rfl rfl rfl rfl
   · cases hs
 
 theorem InvW_mHdr {P : Params} {s s' : St} (h : InvW s) (hs : mHdr P s = some s') : InvW s' := by
@@ -393,8 +383,8 @@ theorem InvW_mHdr {P : Params} {s s' : St} (h : InvW s) (hs : mHdr P s = some s'
   · rename_i hg
     dsimp only at hs
     split at hs <;> cases hs
-    · exact InvW_ret _ (InvW_main h rfl (by simp [hg]) (by simp [hg]) rfl rfl rfl rfl) (by simp [hg])
-    · exact InvW_main h rfl (by simp [hg]) (by simp) rfl rfl rfl rfl
+    · exact InvW_ret _ (InvW_main h rfl (by simp [hg]) rfl rfl rfl rfl) (by simp [hg])
+    · exact InvW_main h rfl (by simp [hg]) rfl rfl rfl rfl
   · cases hs
 
 theorem InvW_mRead {P : Params} {s s' : St} (h : InvW s) (hA : InvA P s) (hs : mRead P s = some s') : InvW s' := by
@@ -405,27 +395,24 @@ theorem InvW_mRead {P : Params} {s s' : St} (h : InvW s) (hA : InvA P s) (hs : m
     split at hs
     · cases hs; exact InvW_ret _ h hpc
     · split at hs
-      · cases hs; exact InvW_main h rfl hpc (by simp) rfl rfl rfl rfl
+      · cases hs; exact InvW_main h rfl hpc rfl rfl rfl rfl
       · rename_i e rest hcons
         split at hs
-        · cases hs; exact InvW_main h rfl hpc (by simp) rfl rfl rfl rfl
+        · cases hs; exact InvW_main h rfl hpc rfl rfl rfl rfl
         · rename_i hfin
           have hfin' : e.finished = true := by simpa using hfin
           have hwk : e.wk = none := ((hA e (by rw [hcons]; exact List.mem_cons_self)).fin hfin').2
           dsimp only at hs
           split at hs
-          · cases hs; exact InvW_main h rfl hpc (by simp) rfl rfl rfl rfl
+          · cases hs; exact InvW_main h rfl hpc rfl rfl rfl rfl
           · cases hs
             have hb : busy s.outq = busy rest := by rw [hcons, busy_cons, hwk]; simp
-            have hmpc : (if s.cap - min s.cap ((e.enc P).length - s.readPos) > 0 then MPc.loopTop else MPc.encIn) ≠ .ending ∧
-                (if s.cap - min s.cap ((e.enc P).length - s.readPos) > 0 then MPc.loopTop else MPc.encIn) ≠ .failed := by
-              split <;> simp
             refine ⟨?_, ?_, fun _ => h.exZero hpc.1⟩
             · intro x hx
               have hx' : x ∈ s.outq := by rw [hcons]; exact List.mem_cons_of_mem _ hx
-              refine EW_congr (h.ew x hx') ?_ ?_ Iff.rfl
-              · unfold En; exact ⟨fun a => absurd a hpc.1, fun a => absurd a hmpc.1⟩
-              · unfold Fl; exact ⟨fun a => absurd a hpc.2, fun a => absurd a hmpc.2⟩
+              refine EW_mono (h.ew x hx') ?_ ?_ id
+              · unfold En; exact fun a => absurd a hpc.1
+              · unfold Dn; exact fun a => a.elim (fun b => absurd b hpc.2) (fun b => absurd b hpc.1)
             · dsimp only; rw [← hb]; exact h.cnt
   · cases hs
 
@@ -440,28 +427,26 @@ theorem InvW_mAfterIn {P : Params} {s s' : St} (h : InvW s) (hs : mAfterIn P s =
   split at hs
   · rename_i hg
     have hpc : s.mpc ≠ .ending ∧ s.mpc ≠ .failed := by simp [hg]
-    have hnf : InvW (noteFlush s) := InvW_main h rfl hpc hpc rfl rfl rfl rfl
+    have hnf : InvW (noteFlush s) := InvW_main h rfl hpc rfl rfl rfl rfl
     split at hs; · cases hs; exact InvW_ret _ h hpc
     split at hs; · cases hs; exact InvW_ret _ hnf hpc
-    split at hs; · cases hs; exact InvW_main h rfl hpc (by simp) rfl rfl rfl rfl
+    split at hs; · cases hs; exact InvW_main h rfl hpc rfl rfl rfl rfl
     split at hs; · cases hs; exact InvW_ret _ hnf hpc
     split at hs; · cases hs; exact InvW_ret _ h hpc
-    cases hs; exact InvW_main h rfl hpc (by simp) rfl rfl rfl rfl
+    cases hs; exact InvW_main h rfl hpc rfl rfl rfl rfl
   · cases hs
 
 theorem InvW_mWake {s s' : St} (h : InvW s) (hs : mWake s = some s') : InvW s' := by
   unfold mWake at hs
   split at hs
   · rename_i hg
-    split at hs <;> cases hs
-    · exact InvW_main h rfl (by simp [hg.1]) (by simp) rfl rfl rfl rfl
-    · exact InvW_main h rfl (by simp [hg.1]) (by simp [hg.1]) rfl rfl rfl rfl
+    split at hs <;> cases hs <;> exact InvW_main h rfl (by simp [hg.1]) rfl rfl rfl rfl
   · cases hs
 
 theorem InvW_mSpurious {s s' : St} (h : InvW s) (hs : mSpurious s = some s') : InvW s' := by
   unfold mSpurious at hs
   split at hs
-  · rename_i hg; cases hs; exact InvW_main h rfl (by simp [hg]) (by simp [hg]) rfl rfl rfl rfl
+  · rename_i hg; cases hs; exact InvW_main h rfl (by simp [hg]) rfl rfl rfl rfl
   · cases hs
 
 theorem InvW_mTimeout {s s' : St} (h : InvW s) (hs : mTimeout s = some s') : InvW s' := by
@@ -475,14 +460,14 @@ theorem InvW_mTail {P : Params} {s s' : St} (h : InvW s) (hs : mTail P s = some 
   split at hs
   · rename_i hg
     dsimp only at hs
-    split at hs <;> cases hs <;> exact InvW_ret _ (InvW_main h rfl (by simp [hg]) (by simp [hg]) rfl rfl rfl rfl) (by simp [hg])
+    split at hs <;> cases hs <;> exact InvW_ret _ (InvW_main h rfl (by simp [hg]) rfl rfl rfl rfl) (by simp [hg])
   · cases hs
 
 theorem InvW_mUpdate {s s' : St} {c : Nat} (h : InvW s) (hs : mUpdate s c = some s') : InvW s' := by
   unfold mUpdate at hs
   split at hs
   · rename_i hg
-    split at hs <;> cases hs <;> exact InvW_main h rfl (by simp [hg]) (by simp [hg]) rfl rfl rfl rfl
+    split at hs <;> cases hs <;> exact InvW_main h rfl (by simp [hg]) rfl rfl rfl rfl
   · cases hs
 
 theorem InvW_mEnd {s s' : St} {p : Option Cfg} (h : InvW s) (hs : mEnd s p = some s') : InvW s' := by
@@ -490,28 +475,38 @@ theorem InvW_mEnd {s s' : St} {p : Option Cfg} (h : InvW s) (hs : mEnd s p = som
   split at hs
   · rename_i hg
     cases hs
-    refine ⟨?_, ?_, fun a => absurd rfl a⟩
-    · intro x hx
-      rcases mem_mapWorkers hx with ⟨e0, h0, rfl⟩
-      have hE := h.ew e0 h0
-      refine ⟨?_, ?_, ?_, ?_, ?_⟩
-      · intro w hw
-        cases hk : e0.wk with
-        | none => simp [hk] at hw
-        | some w0 => simp [hk] at hw; subst hw; simp [En]
-      · intro w hw
-        cases hk : e0.wk with
-        | none => simp [hk] at hw
-        | some w0 => simp [hk] at hw; subst hw; simp
-      · intro w hw
-        cases hk : e0.wk with
-        | none => simp [hk] at hw
-        | some w0 => simp [hk] at hw; subst hw; simp
-      · intro _ _ _ _; exact Or.inr (Or.inr rfl)
-      · intro _; exact Or.inr (Or.inr (Or.inr rfl))
-    · have hc := h.cnt
-      have hz : s.exiting = 0 := h.exZero (by rcases hg with a | a <;> simp [a])
-      simp only [exitAll, busy_mapWorkers]; omega
+    refine ⟨?_, h.cnt, fun a => absurd rfl a⟩
+    intro x hx
+    refine EW_mono (h.ew x hx) (fun _ => rfl) (fun _ => Or.inr rfl) id
+  · cases hs
+
+theorem InvW_mExitOne {s s' : St} {i : Nat} (h : InvW s) (hs : mExitOne s i = some s') : InvW s' := by
+  unfold mExitOne at hs
+  split at hs
+  · rename_i hg
+    split at hs; · cases hs
+    rename_i e hi
+    split at hs; · cases hs
+    rename_i w hw
+    have hE := h.ew e (mem_of_getElem? hi)
+    split at hs
+    · cases hs
+      refine InvW_set h hi rfl rfl id (EW_of_w (fun _ => hg) (by simp) (by simp) ?_) ?_ h.exZero
+      · intro _ _; exact Or.inr (Or.inr hg)
+      · have := busy_set (e' := { e with wk := some { w with state := .exit, woken := true } }) hi
+        simp [hw] at this
+        dsimp only; rw [this]; exact h.cnt
+    · cases hs
+  · cases hs
+
+theorem InvW_mExitIdle {s s' : St} (h : InvW s) (hs : mExitIdle s = some s') : InvW s' := by
+  unfold mExitIdle at hs
+  split at hs
+  · rename_i hg
+    cases hs
+    have hc := h.cnt
+    refine ⟨h.ew, ?_, fun a => absurd hg.1 a⟩
+    dsimp only; omega
   · cases hs
 
 theorem InvW_mJoin {P : Params} {s s' : St} (hs : mJoin P s = some s') : InvW s' := by
@@ -520,14 +515,13 @@ theorem InvW_mJoin {P : Params} {s s' : St} (hs : mJoin P s = some s') : InvW s'
   · split at hs <;> cases hs <;> exact ⟨by intro e he; simp [initSt] at he, by simp [initSt, busy], by simp [initSt]⟩
   · cases hs
 
-
 theorem eq_dropLast_append {q : List Entry} {e : Entry} (h : q.getLast? = some e) : q = q.dropLast ++ [e] := by
   induction q with
   | nil => simp at h
   | cons a l ih =>
     cases l with
     | nil => simp at h; subst h; rfl
-    | cons b l => 
+    | cons b l =>
       rw [List.getLast?_cons_cons] at h
       have := ih h
       simp only [List.dropLast_cons_cons, List.cons_append]
@@ -538,15 +532,14 @@ theorem InvW_mEncIn {s s' : St} (h : InvW s) (hs : mEncIn s = some s') : InvW s'
   split at hs
   · rename_i hg
     have hpc : s.mpc ≠ .ending ∧ s.mpc ≠ .failed := by simp [hg]
-    have hnen : ¬ En s := by unfold En; simp [hg]
-    split at hs; · cases hs; exact InvW_main h rfl hpc (by simp) rfl rfl rfl rfl
+    split at hs; · cases hs; exact InvW_main h rfl hpc rfl rfl rfl rfl
     split at hs
-    · split at hs; · cases hs; exact InvW_main h rfl hpc (by simp) rfl rfl rfl rfl
+    · split at hs; · cases hs; exact InvW_main h rfl hpc rfl rfl rfl rfl
       have newE : ∀ (w : WCtx) (o c : Nat), w.state = .run → w.pc = .top →
-          EW (En s) (Fl s) (Er s) { ord := o, chain := c, wk := some w } := by
+          EW (En s) (Dn s) (Er s) { ord := o, chain := c, wk := some w } := by
         intro w o c h1 h2
         refine ⟨?_, ?_, ?_, ?_, (by intro a; cases a)⟩
-        · intro w' hw'; cases hw'; rw [h1]; exact ⟨(fun a => by cases a), fun a => absurd a hnen⟩
+        · intro w' hw' a; cases hw'; rw [h1] at a; cases a
         · intro w' hw' a; cases hw'; rw [h1] at a; cases a
         · intro w' hw' a; cases hw'; rw [h1] at a; cases a
         · intro w' hw' a; cases hw'; rw [h2] at a; rcases a with a | a <;> cases a
@@ -571,13 +564,13 @@ theorem InvW_mEncIn {s s' : St} (h : InvW s) (hs : mEncIn s = some s') : InvW s'
             · exact newE _ _ _ rfl rfl
           · have hc := h.cnt
             dsimp only; rw [busy_append]; simp; omega
-        · cases hs; exact InvW_main h rfl hpc (by simp) rfl rfl rfl rfl
+        · cases hs; exact InvW_main h rfl hpc rfl rfl rfl rfl
     · split at hs; · cases hs
       rename_i e hl
       have hE := h.ew e (List.mem_of_getLast? hl)
       dsimp only at hs
       have s1W : ∀ t : St, t.outq = s.outq → t.mpc = s.mpc → t.err = s.err → t.idle = s.idle → t.ninit = s.ninit → t.exiting = s.exiting → InvW t :=
-        fun t a b c d e f => InvW_main h a hpc (b ▸ hpc) c d e f
+        fun t a _ c d e f => InvW_main h a hpc c d e f
       split at hs
       · cases hs; exact InvW_ret _ (s1W _ rfl rfl rfl rfl rfl rfl) hpc
       · rename_i w hw
@@ -592,12 +585,11 @@ theorem InvW_mEncIn {s s' : St} (h : InvW s) (hs : mEncIn s = some s') : InvW s'
             rcases hx with hx | rfl
             · exact h.ew x ((List.dropLast_sublist _).subset hx)
             · refine ⟨?_, ?_, ?_, ?_, (by intro a; cases a)⟩
-              · intro w' hw'; cases hw'
-                dsimp only
-                have hne : w.state ≠ .exit := fun a => hnen ((hE.exitIff w hw).mp a)
-                split
-                · exact ⟨(fun a => by cases a), fun a => absurd a hnen⟩
-                · exact ⟨fun a => absurd a hne, fun a => absurd a hnen⟩
+              · intro w' hw' a; cases hw'
+                dsimp only at a
+                split at a
+                · cases a
+                · exact hE.exitEn w hw a
               · intro w' hw' a; cases hw'
                 dsimp only at a
                 split at a
@@ -636,6 +628,8 @@ theorem InvW_step {P : Params} {s s' : St} {e : Ev} (h : InvW s) (hA : InvA P s)
     · exact InvW_mEnd h hs
     · cases hs
   | lzmaEnd => exact InvW_mEnd h hs
+  | mExitOne i => exact InvW_mExitOne h hs
+  | mExitIdle => exact InvW_mExitIdle h hs
   | mJoin => exact InvW_mJoin hs
   | wTop i => exact InvW_wTop h hs
   | wEnc i full newOut => exact InvW_wEnc h hs
